@@ -1,3 +1,3 @@
 SPECIFICATION Spec
-INVARIANT I2
+POSTCONDITION Consumed
 CHECK_DEADLOCK FALSE
